@@ -552,7 +552,7 @@ func (r *run) sectionMapLin() error {
 					"seed": r.seed, "section": section, "scenario": name, "round": j.round, "repetition": j.rep,
 					"round_seed": j.rs, "goroutines": len(j.p.Par), "history": renderHistory(j.h),
 					"verdicts": map[string]string{"own": j.res.own.String(), "porcupine": j.res.porc.String()},
-					"rerun": fmt.Sprintf("bin/conc -seed %d -sections 1 -scenario %s -round %d -repeat 500", r.seed, name, j.round),
+					"rerun":    fmt.Sprintf("bin/conc -seed %d -sections 1 -scenario %s -round %d -repeat 500", r.seed, name, j.round),
 				})
 			} else if !sampled[name] {
 				sampled[name] = true
